@@ -437,6 +437,15 @@ def resolve_scopes(ctx):
             for k, v in r["values"][0]["c"]:
                 b.append([k, _binding(v)])
         _RESOLVED[t] = b
+    # a value the driver prints but does not read back (for example a date before the year 1000) is bound to null instead
+    resps = d.batch([{"op": "eval", "text": "1", "scope": [_RESOLVED[t]]} for t in texts])
+    for t, r in zip(texts, resps):
+        if isinstance(r, dict) and "error" in r:
+            fixed = []
+            for k, v in _RESOLVED[t]:
+                r1 = d.safe({"op": "eval", "text": "1", "scope": [[[k, v]]]})
+                fixed.append([k, v if isinstance(r1, dict) and "error" not in r1 else None])
+            _RESOLVED[t] = fixed
 
 
 def item_scope(it):
